@@ -161,3 +161,7 @@ pub fn object_find<'a>(o: &'a dyn Object, key: &str) -> (r: Option<Value<'a>>)
 {
     Object::find(o, key)
 }
+
+// derived Clone of Value (external_derive): a clone denotes the same value
+pub assume_specification<'a>[ <Value<'a> as Clone>::clone ](v: &Value<'a>) -> (r: Value<'a>)
+    ensures r@ == v@;
